@@ -537,3 +537,95 @@ def run(cx):
         r.check(len(c_.args) == 1 and norm(c_.args[0]) == "duration_ms", "DCMotor.run_for/sleep(duration_ms)", (m, c_), f"_sleep({norm(c_.args[0]) if c_.args else ''})")
     last = rf.body[-1]
     r.check(isinstance(last, ast.Expr) and norm(last.value) == "self.stop()", "DCMotor.run_for/ends-braked", (m, last), "run_for must end with stop()")
+
+    # ---- C19-MOTOR-LAW -----------------------------------------------------------------------
+    rule_motor_law(cx)
+
+
+def rule_motor_law(cx, rid="C19-MOTOR-LAW"):
+    """the DCMotor clauses of the property evaluated on the host class itself (checker's interpreter, sleeps recorded): from
+    every state of a grid and for every command with in-range, boundary and out-of-range arguments"""
+    from . import c04
+    m = mod(CLASSES["DCMotor"])
+    r = cx.rule(rid, "DCMotor, from every state of {speed -1,-0.5,0,0.5,1} x inverted x mode and for every command/argument of a grid: |speed|<=1, applied = +-speed, mode = drive iff applied != 0 else brake after stop/run_for and coast otherwise, invert twice is the identity, ramp ends on the clamped target after exactly 20 monotone steps with 20 waits of duration/20 (never longer than the duration), run_for waits exactly once and ends braked, a raising call leaves the object unchanged", floor=400, exhaustive=True)
+    cmds = [("set_speed", [v_]) for v_ in (-2, -1, -0.5, 0, 0.5, 1, 3, True)] + [("backward", [v_]) for v_ in (0, 0.5, 1, -0.5, 2)] + [("backward", [])] + \
+           [("stop", []), ("coast", []), ("invert", [])] + [("ramp", [t_, d_]) for t_ in (-2, -0.5, 0, 0.5, 1) for d_ in (0, 100, 1000, -1)] + \
+           [("run_for", [d_, v_]) for v_ in (-1, 0, 0.5) for d_ in (0, 250, -5)]
+    attrs = ("_speed", "_applied_speed", "_mode", "_inverted")
+    n_bad = 0
+
+    def report(meth, args, st, why):
+        nonlocal n_bad
+        n_bad += 1
+        if n_bad <= 4:
+            r.fail(f"DCMotor.{meth}/law", (m, m.func(f"DCMotor.{meth}")), f"from (speed {st[0]}, inverted {st[1]}, mode {st[2]}): motor.{meth}({', '.join(map(str, args))}) {why}", detail={"method": meth, "args": [repr(a) for a in args], "state": list(st)})
+        else:
+            r.stat.obligations += 1
+            r.stat.failed += 1
+
+    for meth, args in cmds:
+        fn = m.func(f"DCMotor.{meth}")
+        for sp in (-1.0, -0.5, 0.0, 0.5, 1.0):
+            for inv in (False, True):
+                for mode0 in (("drive",) if sp != 0 else ("coast", "brake")):
+                    o = c04.host_object(m, "DCMotor", 2, 4, 9)
+                    o._speed, o._inverted, o._mode, o._applied_speed = sp, inv, mode0, (-sp if inv else sp)
+                    before = tuple(getattr(o, a_) for a_ in attrs)
+                    trace = []
+                    try:
+                        out = dl.Interp(m, opaque={"_sleep": lambda ms, _t=trace, _o=o: _t.append((ms, _o._speed))}).call(fn, [o] + list(args))
+                    except dl.Unsupported as e:
+                        raise AnalysisError(f"host DCMotor.{meth} left the evaluable subset: {e}")
+                    st = (sp, inv, mode0)
+                    after = tuple(getattr(o, a_) for a_ in attrs)
+                    if out.kind == "raise":
+                        bad_arg = (meth == "ramp" and args[1] < 0) or (meth == "run_for" and args[0] < 0)
+                        if not bad_arg:
+                            report(meth, args, st, f"raises {out.value} for a valid argument")
+                        elif after != before or trace:
+                            report(meth, args, st, f"raises {out.value} but leaves {after} (was {before}) after {len(trace)} waits")
+                        else:
+                            r.ok(None)
+                        continue
+                    why = None
+                    if not abs(o._speed) <= 1:
+                        why = f"leaves |speed| = {abs(o._speed)} > 1"
+                    elif o._applied_speed != (-o._speed if o._inverted else o._speed):
+                        why = f"leaves applied {o._applied_speed} with speed {o._speed}, inverted {o._inverted}"
+                    else:
+                        want_mode = "drive" if o._applied_speed != 0 else ("brake" if meth in ("stop", "run_for") else "coast")
+                        if meth == "invert" and o._applied_speed == 0:
+                            want_mode = None if False else "coast"
+                        if o._mode != want_mode:
+                            why = f"leaves mode {o._mode!r}; the law gives {want_mode!r} (applied {o._applied_speed})"
+                    clamp = lambda v_: max(-1.0, min(1.0, float(v_)))
+                    if why is None and meth == "ramp":
+                        t_, d_ = args
+                        if abs(o._speed - clamp(t_)) > 1e-9:
+                            why = f"ends at {o._speed}, clamped target {clamp(t_)}"
+                        elif d_ > 0 and (len(trace) != 20 or any(abs(w_ - d_ / 20) > 1e-9 for w_, _s in trace) or sum(w_ for w_, _s in trace) > d_ + 1e-9):
+                            why = f"waits {len(trace)} time(s) ({sorted(set(w_ for w_, _s in trace))}); the law is 20 waits of {d_ / 20}"
+                        elif d_ > 0:
+                            seq = [sp] + [s_ for _w, s_ in trace]
+                            up = clamp(t_) >= sp
+                            if any((b_ < a_ - 1e-12) if up else (b_ > a_ + 1e-12) for a_, b_ in zip(seq, seq[1:])):
+                                why = f"steps are not monotone: {seq}"
+                        elif d_ == 0 and trace:
+                            why = f"waits {len(trace)} time(s) although the duration is 0"
+                    if why is None and meth == "run_for":
+                        if [w_ for w_, _s in trace] != [args[0]]:
+                            why = f"waits {[w_ for w_, _s in trace]}; the law is exactly one wait of {args[0]}"
+                        elif o._mode != "brake" or o._speed != 0:
+                            why = f"ends (speed {o._speed}, mode {o._mode}), not braked"
+                    if why is None and meth == "invert":
+                        out2 = dl.Interp(m).call(fn, [o])
+                        back = tuple(getattr(o, a_) for a_ in attrs)
+                        if out2.kind != "return" or (back[0], back[1], back[3]) != (before[0], before[1], before[3]):
+                            why = f"twice gives {back}, started from {before}: not an involution"
+                    if why is None and meth not in ("ramp", "run_for") and trace:
+                        why = f"waits {len(trace)} time(s)"
+                    if why:
+                        report(meth, args, st, why)
+                    else:
+                        r.ok(None)
+    return r
